@@ -27,12 +27,14 @@ Definition fresh_reset (ttl now : N) : trec :=
 (* ... and as DnsRecord::new makes it *)
 Definition fresh_new (ttl now : N) : trec := mkT ttl now (now + 1000 * ttl) (now + 800 * ttl).
 
-Fixpoint replace_first (inc : ident) (fresh : trec) (b : tbucket) : option tbucket :=
+(* the first matching record is refreshed in place; the flag: it had TTL <= 1 and the incoming
+   record has TTL > 1 (a goodbye followed by a new announcement: reported as new) *)
+Fixpoint replace_first (inc : ident) (ttl : N) (fresh : trec) (b : tbucket) : option (tbucket * bool) :=
   match b with
   | [] => None
   | e :: rest =>
-      if matches (c_id e) inc then Some (mkC (c_id e) fresh :: rest)
-      else match replace_first inc fresh rest with Some r => Some (e :: r) | None => None end
+      if matches (c_id e) inc then Some (mkC (c_id e) fresh :: rest, (t_ttl (c_t e) <=? 1) && (1 <? ttl))
+      else match replace_first inc ttl fresh rest with Some (r, rv) => Some (e :: r, rv) | None => None end
   end.
 
 Definition aou_spec (b : tbucket) (inc : ident) (ttl now : N) (is_for_us : bool)
@@ -41,8 +43,8 @@ Definition aou_spec (b : tbucket) (inc : ident) (ttl now : N) (is_for_us : bool)
   else
     let b1 := map (flush_entry inc now) b in
     let ts := map (fun _ => now + 1000) (filter (fun e => i_flush inc && flushable inc now e) b) in
-    match replace_first inc (fresh_reset ttl now) b1 with
-    | Some b2 => Some (b2, ts, false)
+    match replace_first inc ttl (fresh_reset ttl now) b1 with
+    | Some (b2, revived) => Some (b2, ts, revived)
     | None => Some (mkC inc (fresh_new ttl now) :: b1, ts, true)
     end.
 
